@@ -36,6 +36,9 @@ class T:
             if k == 2:
                 nm = r.choice(['KT', 'Kt', 'kt']) if truth else r.choice(['KF', 'kf'])
                 return '.if %s' % nm
+            if k == 3 and r.random() < .5:
+                # a .define flag inside an expression is the constant 0, under the name exactly as written
+                return '.if %s' % (r.choice(['!DEFD', 'DEFD == 0', 'DEFD + 1', 'KT - DEFD']) if truth else r.choice(['DEFD', 'DEFD * 5', 'DEFD != 0', 'KF + DEFD']))
             if k == 3: return '.if %s - %d' % ('KT' if truth else 'KF', 0)
             return r.choice(['.if (%d)', '.if(%d)', '.if\t%d', '.if(%d) ; glued']) % (1 if truth else 0)     # no blank is needed before a parenthesis
         # .ifdef/.ifndef look at .define flags only: an .equ constant (KT, KF), a label or a macro of that name is not a flag
@@ -168,7 +171,7 @@ def run(tier, seed, model_ok):
             vio.append({'what': 'generator bug: the blanked program does not build', 'source': '\n'.join(l if k else '' for l, k in p), 'impl': b[:100], 'expected': 'OK', 'key': 'generator'})
     return {
         'evaluations': len(trip), 'distinct_nontrivial': len({t[2] for t in trip}),
-        'rule': 'every shape (0..2 .elif arms x with/without .else x .if/.ifdef/.ifndef head) x every truth assignment, alone and with one nested construct (every second shape in the quick tier, every truth assignment) in every branch position, plus seeded random sequences of constructs with nesting; conditions on literals, comparisons, .equ constants (in several letter cases) and .define flags; unselected branches filled with valid code, a duplicate label, garbage, .error, .message, undefined symbols, .define/.equ/.device lines and macro definitions; every program is built twice (full / unselected lines blanked); distinct = distinct program texts',
+        'rule': 'every shape (0..2 .elif arms x with/without .else x .if/.ifdef/.ifndef head) x every truth assignment, alone and with one nested construct (every second shape in the quick tier, every truth assignment) in every branch position, plus seeded random sequences of constructs with nesting; conditions on literals, comparisons, .equ constants (in several letter cases) and .define flags (also inside .if expressions, where a flag is the constant 0); unselected branches filled with valid code, a duplicate label, garbage, .error, .message, undefined symbols, .define/.equ/.device lines and macro definitions; every program is built twice (full / unselected lines blanked); distinct = distinct program texts',
         'samples': ['\n'.join(l for l, _ in progs[5]), '\n'.join(l for l, _ in progs[-1])],
         'exhaustive': False,
         'distribution': {'programs': len(progs), 'full_programs_that_build': okc},
